@@ -1,5 +1,5 @@
 SPECIFICATION Spec
-CONSTANTS MaxDocs = 2  MergeDocs = TRUE
+CONSTANTS MaxDocs = 3  MergeDocs = TRUE
 INVARIANT C18
 INVARIANT Export
 CHECK_DEADLOCK FALSE
